@@ -7,11 +7,11 @@ from vlib import *
 import reqresp_util as ru
 
 ASSUME = [
-    "real litep2p nodes over loopback TCP, driven only through the public API (ConfigBuilder, Litep2p, "
+    "real litep2p nodes over loopback TCP, WebSocket (over TCP) and QUIC, driven only through the public API (ConfigBuilder, Litep2p, "
     "RequestResponseHandle); commands are logged before they are given and events after they were observed, all under "
     "one mutex per network, so the order of a trace is consistent with causality",
     "silence is judged at a deadline of 3 x (connection-open + substream-open + 2 x request timeout + largest scripted "
-    "response delay) + 1 s after the last scripted step; a network during whose life timers fired more than an eighth of "
+    "response delay [+ 3 s on QUIC: quinn's handshake / idle timeout floor]) + 1 s after the last scripted step; a network during whose life timers fired more than an eighth of "
     "that bound late is discarded and re-run (never judged)",
     "concurrently outstanding inbound requests = shown to the responder's user and not yet answered / rejected by it",
     "requests shorter than 19 bytes cannot carry a nonce; scripts contain at most one such request per size and "
@@ -95,11 +95,22 @@ def generate(ctx):
 
 
 def scenarios(ctx, behs):
-    nshape = ru.shape_scenarios(ctx.seed)
+    """tcp: every shape (plain and under schedule perturbation), TLC-derived and random scripts; ws and quic: every
+    shape that can run there plus a sample of the TLC-derived and random families (thorough: larger samples)."""
+    shapes = ru.shape_scenarios(ctx.seed)
     ntlc, nrand = (140, 260) if ctx.quick() else (1500, 3000)
     tl, tlc_distinct = ru.tlc_scenarios(behs, ctx.seed, ntlc)
     rd = ru.random_scenarios(ctx.seed, nrand)
-    return nshape + tl + rd, {"shape": len(nshape), "tlc": len(tl), "tlc_distinct_scripts": tlc_distinct, "random": len(rd)}
+    scs = shapes + tl + rd
+    mix = {"tcp": {"shape": len(shapes), "tlc": len(tl), "tlc_distinct_scripts": tlc_distinct, "random": len(rd)}}
+    for tr in ("ws", "quic"):
+        sh, skipped = ru.on_transport(shapes if not ctx.quick() else [s for s in shapes if s["perturb"] == 0], tr)
+        ntlc2, nrand2 = (30, 50) if ctx.quick() else (400, 800)
+        tl2, _ = ru.tlc_scenarios(behs, ctx.seed, ntlc2, first_id=300000 + ru.TR_OFFSET[tr], tr=tr)
+        rd2 = ru.random_scenarios(ctx.seed, nrand2, first_id=200000 + ru.TR_OFFSET[tr], tr=tr)
+        scs += sh + tl2 + rd2
+        mix[tr] = {"shape": len(sh), "tlc": len(tl2), "random": len(rd2), "shapes_not_run_need_byte_proxy": skipped}
+    return scs, mix
 
 
 def run_harness(ctx, scs, tag="s", env=None):
@@ -137,11 +148,19 @@ def check(ctx):
     by_id = {s["id"]: s for s in scs}
     nseg, nev, rejects, violations = judge(ctx, lines, by_id)
     kinds, distinct, nontrivial = {}, set(), 0
+    per_tr, cur = {}, None
     for ln in lines:
         if '"e":"reset"' in ln:
+            cur = per_tr.setdefault(json.loads(ln).get("transport", "tcp"), {"executions": 0, "events": 0, "kinds": {}})
+            cur["executions"] += 1
             continue
         k = json.loads(ln)["e"]
         kinds[k] = kinds.get(k, 0) + 1
+        cur["events"] += 1
+        cur["kinds"][k] = cur["kinds"].get(k, 0) + 1
+    for r in rejects:
+        t = json.loads(r[0][0]).get("transport", "tcp")
+        per_tr[t]["rejected"] = per_tr[t].get("rejected", 0) + 1
     for s in scs:
         key = json.dumps([s["steps"], s["links"], s["nodes"]], sort_keys=True)
         if any(st["a"] == "burst" and st["reqs"] for st in s["steps"]):
@@ -166,6 +185,7 @@ def check(ctx):
         "model_runs": mc,
         "generation": gstats,
         "scenario_mix": mix,
+        "per_transport": per_tr,
         "harness": {k: summ[k] for k in summ if k != "setup_error_sample"},
         "event_kinds": kinds,
         "rejected_executions": len(rejects),
